@@ -5,6 +5,7 @@ record, so "the row with offset o" has one size in every snapshot. The ghost `Gh
 the offsets handed out so far and the size of the record at each. Core only.
 -/
 import Gsu.Proofs.DbInv6
+import Gsu.Model.DbOK
 namespace Gsu.Db
 
 structure Ghost where
@@ -12,12 +13,6 @@ structure Ghost where
   sz : Off → Nat
 
 def Ghost.init : Ghost := ⟨[], fun _ => 0⟩
-
-/-- the record an operation writes to the store -/
-def Op.newRow : Op → Option Row
-  | .out _ _ row => some row
-  | .upd _ _ _ row => some row
-  | _ => none
 
 def gstep (g : Ghost) (op : Op) : Ghost :=
   match op.newRow with
@@ -115,13 +110,13 @@ theorem rowsSize_split (X : List Row) (p : Row → Bool) :
 theorem commit_size {sti lti : Info} {d : TDif} (hL : TblInv lti) (hS : TblInv sti) (hT : TVInv sti d)
     (hind : indep d sti lti = true) (g : Ghost) (hgL : RowsIn g lti.rows) (hgS : RowsIn g sti.rows)
     (hsz : lti.size = rowsSize lti.rows) :
-    lti.size + d.ds = rowsSize (viewOf lti.rows d.adds d.dels) := by
+    lti.size + d.ds = rowsSize (viewRows lti.rows d.adds d.dels) := by
   have c1 := rowsSize_filter_dels lti.rows d.dels hL.offs hT.dnod (commit_dels_sub hL hS hT hind) hgL
   have c2 := rowsSize_filter_dels sti.rows d.dels hS.offs hT.dnod hT.dsub hgS
   have n1 := rowsSize_split lti.rows (fun r => d.dels.contains r.off)
   have n2 := rowsSize_split sti.rows (fun r => d.dels.contains r.off)
   have hc := hT.sz
-  simp only [TDif.view, viewOf, rowsSize_append] at hc ⊢
+  simp only [TDif.view, viewRows, rowsSize_append] at hc ⊢
   omega
 
 end Gsu.Db
